@@ -71,6 +71,19 @@ PROPS["C13"] = A("TestSim_C13",
     probes=[], assumptions=COMMON_ASSUME + ["websocket transport not simulated: byte-level inputs travel through the long-polling handler (same dispatchRaw)",
                                             "push preview rendering (fcm/tnpg payload preparation from message content) is stubbed: simpush records receipts without rendering previews"])
 
+PROPS["C14"] = A("TestSim_C14",
+    "one evaluation = one simulated run: 2-4 users x 1-2 sessions (gRPC and long-polling mixed) on 1-2 shared groups/channels and a p2p topic; 1-3 phases of 3-14 actions per run drawn from "
+    "subscribe, leave, unsubscribe, publish, abrupt disconnect (also between request and reply), reconnect, slow consumer (client stops reading) plus bursts of 5-200 publishes that overflow its queue "
+    "and get it evicted, {del topic} by owner and by others, {del user}, attach/detach of 'me', waits of 0.1-6 s chosen around the 4 s idle unload, optionally one store failure inside topic loading / "
+    "subscription lookup / deletion; half of the requests are pipelined without waiting for replies. All four schedule policies with forced preemptions at channel operations and locks. "
+    "Oracle at final quiescence: every {sub}/{leave}/{del} with an id on a live connection was answered (a leave that crossed its own eviction may be answered by the 205 notice; replies lost to a "
+    "logged queue overflow are excluded); white-box: topic.sessions and session.subs are mutually consistent, no terminated or unregistered session is attached, per-user online counters equal the "
+    "attached foreground sessions, closed gRPC connections are gone from the registry; no task is blocked outside the wait sites learned from the idle system after configuration, none waits for a "
+    "lock or wait group, one topic actor per registered topic; step budget not exhausted. Non-trivial = at least two of {disconnect, slow consumer, eviction} occurred in the run; distinct = distinct (program, schedule).",
+    probes=["fault.disconnect", "fault.slow_consumer", "fault.store_err", "c14.leave_crossed_eviction", "c14.abandoned_lp_session"],
+    assumptions=COMMON_ASSUME + ["the data-race clause (shared data touched only under its lock/atomic) is not decided by the serial scheduler: every hand-off between tasks creates a happens-before edge; see DESIGN.md 2.11",
+                                 "long-polling sessions abandoned by their client are excluded from the attachment bijection (they are detached only when the registry expires them)"])
+
 NOT_APPLICABLE = {
     "C20": "pure functions of one input (id codecs, name spellings, JSON<->protobuf converters): no schedule, clock, fault, crash point or second party for a simulator to decide; see DESIGN.md section 6",
 }
